@@ -57,6 +57,9 @@ class CFormatter(Formatter):
         # A trailing backslash would splice the next generated line into this
         # line comment.
         content = content.rstrip("\\ \t")
+        # So would the trigraph of the backslash in ISO C modes.
+        while content.endswith("??/"):
+            content = content[:-3].rstrip("\\ \t")
         return f"// {content}"
 
     def format_sizeof(self, t: str) -> str:
